@@ -90,14 +90,14 @@ def random_history(rng, n_ops=None, n_nodes=None, tlo=-3, thi=12, p_reject=0.08,
                    p_bulk=0.15, p_node=0.05, loops=True, monotone_bias=0.6):
     n_nodes = n_nodes or rng.choice([2, 3, 3, 4, 5, 6])
     n_ops = n_ops or rng.choice([1, 2, 3, 4, 5, 6, 8, 10, 12, 16, 24])
-    nodes = list(range(1, n_nodes + 1))
+    nodes = list(range(0, n_nodes))      # 0 is a falsy node label
     ops = []
     last = {}
     clock = rng.randint(tlo, tlo + 4)
     for _ in range(n_ops):
         r = rng.random()
         if r < p_node:
-            n = rng.choice(nodes + [n_nodes + 1])
+            n = rng.choice(nodes + [n_nodes])
             ops.append(["node", n])
             if rng.random() < 0.6:
                 ops.append(["attr", n, rng.randint(1, 9)])
